@@ -240,6 +240,7 @@ def check_c03(W, mcfg, blob):
     for i, rec in enumerate(res):
         agg = 1.0
         last_real_corr = None
+        top_chain = []          # single-child levels with no real choice above them
         parent = (None, None)
         for lv in rt.hierarchy:
             d = rec[lv]
@@ -296,7 +297,18 @@ def check_c03(W, mcfg, blob):
                     bad.append(('single-child', '%s: correlation %r, nearest real choice above had %r'
                                 % (where, c, last_real_corr)))
                     return bad
+                if last_real_corr is None:
+                    top_chain.append((where, c))
             else:
+                # no real choice exists ABOVE a single-child chain that starts at the top: the number reported there
+                # is either the neutral 1.0 or this cell's own correlation at the nearest real choice below -- both
+                # readings of "nearest" are accepted, a number that belongs to neither (e.g. to another cell) is not
+                for w2, c2 in top_chain:
+                    if abs(c2 - 1.0) > 1e-12 and abs(c2 - c) > 1e-12:
+                        bad.append(('single-child', '%s: correlation %r is neither 1.0 nor this cell\'s correlation %r '
+                                    'at the nearest real choice (level %r)' % (w2, c2, c, lv)))
+                        return bad
+                top_chain = []
                 last_real_corr = c
             agg *= p
             ap = d.get('aggregate_probability')
